@@ -19,6 +19,7 @@ Section Packets.
 Variable e : env.
 Variables req_sid rsp_sid : nat.          (* struct ids of RequestPacket / ResponsePacket in e *)
 Variable tup_version : Z.                 (* basef.TUPVERSION *)
+Variable oneway : Z.                      (* basef.TARSONEWAY *)
 
 Definition request_pack (req : val) : list N := frame (encode e req_sid req).
 
@@ -62,7 +63,7 @@ Definition rsp2byte (rsp : val) : list N := let '(sid, v) := rsp_body rsp in fra
 (* Protocol.InvokeTimeout: the request is read like in Invoke (pkg[4:], ReadFrom, the error ignored), and a reply
    carrying its version, packet type and request id, iRet = 1 and a fixed description is framed by rsp2Byte. When the
    request does not decode, the reply is built from whatever members were read before the error: not modelled
-   (DErr); the reply is then only monitored to be a well-formed packet. *)
+   (DErr); the reply is then only monitored to be empty or a well-formed packet. *)
 Definition timeout_desc : list N := raw "server invoke timeout"%hex.
 Definition timeout_rsp (req : val) : val :=
   let vs := match req with VStruct l => l | _ => [] end in
@@ -75,9 +76,15 @@ Definition timeout_rsp (req : val) : val :=
                   else if ftag fd =? 5 then VInt 1         (* iRet *)
                   else if ftag fd =? 8 then VStr timeout_desc
                   else z) (fields_of e rsp_sid)).
+Definition req_packet_type (req : val) : Z :=
+  match req with
+  | VStruct l => match member (fields_of e req_sid) l 2 with Some (VInt z) => z | _ => 0%Z end
+  | _ => 0%Z
+  end.
+(* a one-way request (cPacketType = TARSONEWAY) gets no reply, a timed out one included (c396fdc): nil = [] *)
 Definition invoke_timeout (pkg : list N) : dres (list N) :=
   match request_unpack pkg with
-  | DOk req r => DOk (rsp2byte (timeout_rsp req)) r
+  | DOk req r => DOk (if (req_packet_type req =? oneway)%Z then [] else rsp2byte (timeout_rsp req)) r
   | DErr => DErr | DPanic s => DPanic s | DHuge => DHuge | DFuel => DFuel
   end.
 
